@@ -1148,6 +1148,17 @@ KIND_PARSE = {'dfa': DA.parse_dfa, 'nfa': NA.parse_nfa, 'pda': PA.parse_pda, 'tm
               'regexp': parse_simple_regexp}
 
 
+def eps_letter_cfg(rng):
+    """the file declares its own epsilon letter, and the letter 'ε' is an ORDINARY terminal: 'S -> ε' (a word of length one) and
+    'S -> e' (the empty word) are different rules with the same printed form inside the library"""
+    x = rng.choice(['a', 'b'])
+    R = [['S', 0, [['t', 'ε']]] if rng.random() < 0.5 else ['S', 0, []],
+         ['S', 1, [['v', 'S'], ['t', 'ε']]] if rng.random() < 0.6 else ['S', 1, [['t', x], ['v', 'S']]]]
+    if rng.random() < 0.4:
+        R.append(['S', 2, [['t', x]]])
+    return {'V': ['S'], 'Sigma': sorted({n for _, _, rhs in R for k0, n in rhs if k0 == 't'} | {'ε'}), 'R': R, 'S': 'S', 'eps': 'e'}
+
+
 def kind_instance(kind, rng):
     if kind == 'dfa':
         return gen.random_dfa(rng, 4, rng.choice([['a', 'b'], ['a']]))
@@ -1165,14 +1176,7 @@ def kind_instance(kind, rng):
         return None
     if kind == 'cfg':
         if rng.random() < 0.2:
-            # the file declares its own epsilon letter, and the letter 'ε' is an ORDINARY terminal: 'S -> ε' (a word of length one) and
-            # 'S -> e' (the empty word) are different rules with the same printed form inside the library
-            x = rng.choice(['a', 'b'])
-            R = [['S', 0, [['t', 'ε']]] if rng.random() < 0.5 else ['S', 0, []],
-                 ['S', 1, [['v', 'S'], ['t', 'ε']]] if rng.random() < 0.6 else ['S', 1, [['t', x], ['v', 'S']]]]
-            if rng.random() < 0.4:
-                R.append(['S', 2, [['t', x]]])
-            return {'V': ['S'], 'Sigma': sorted({n for _, _, rhs in R for k0, n in rhs if k0 == 't'} | {'ε'}), 'R': R, 'S': 'S', 'eps': 'e'}
+            return eps_letter_cfg(rng)
         c = CfgLanguageWords().instance(rng)
         return None if c is None else c['G']
     return gen.random_regexp(rng, rng.randint(1, 6), rng.choice([['a', 'b'], ['a']]))
@@ -1296,6 +1300,8 @@ class LanguageFileAny:
 
     def instance(self, rng):
         R = kind_instance(self.rkind, rng)
+        if self.kind == self.rkind == 'cfg' and rng.random() < 0.5:
+            R = eps_letter_cfg(rng)
         if R is None:
             return None
         return {'R': R, 'len': rng.choice([2, 3]), 'seed': rng.randrange(1 << 30)}
